@@ -17,7 +17,8 @@ THEOREMS = ['C10_rule_scan_exact', 'C10_rule_scan_none', 'C10_lex_maximal_munch'
             'C10_parse_complete', 'C10_parse_complete_fuel', 'C10_parse_spec', 'C10_parse_none_spec', 'C10_parse_unambiguous',
             'C10_front_rejects_non_sentences', 'C10_front_spec', 'C10_front_none_spec', 'C10_canonical_tree_exists', 'C10_parse_canonical_exact', 'C10_canonical_unique',
             'C10_term_fuel_monotone', 'C10_compile_whole_program', 'C10_front_compile_whole',
-            'C10_compile_front_rejects_non_sentences', 'C10_compile_front_whole']
+            'C10_compile_front_rejects_non_sentences', 'C10_compile_front_whole',
+            'C10_quoted_atom_opaque', 'C10_quoted_body_irrelevant']
 RULE = ('source texts: (a) sentences derived at random from the grammar prolog.g4 itself (every alternative, including '
         '=(a,b), unary operators, name/arity, numeral-named compounds, foo(), [a,|T], nested parentheses, directives), '
         '(b) programs printed from random ASTs, both rendered with random spacing, line breaks and % comments, and (c) every '
